@@ -460,7 +460,8 @@ class Diagram(rigid.Diagram):
             if isinstance(box, Swap):
                 scan[offset], scan[offset + 1] = scan[offset + 1], scan[offset]
                 continue
-            node = tn.Node(box.array, str(box))
+            array = box.eval().array if box.is_dagger else box.array
+            node = tn.Node(array, str(box))
             for i, _ in enumerate(box.dom):
                 tn.connect(scan[offset + i], node[i])
             edges = [node[len(box.dom) + i] for i, _ in enumerate(box.cod)]
